@@ -129,10 +129,12 @@ def run_case(case):
                 fails.append(fail("restored_structure_differs", "stop at %d" % k, key))
             if not strat.startswith("cell"):
                 v2, v3 = np.asarray(sa2(LATTICE)), np.asarray(sa3(LATTICE))
-                if not np.array_equal(v2, v3):
+                # (the restored scheme may list its component grids in another order: summation order, i.e. rounding, may differ)
+                if v2.shape != v3.shape or float(np.max(np.abs(v2 - v3))) > 1e-13 * max(1.0, float(np.max(np.abs(v2)))):
                     fails.append(fail("restored_interpolation_differs", "stop at %d: max diff %r" % (k, float(np.max(np.abs(v2 - v3)))), key))
             e2, e3 = sa2.evaluate_final_combi(), sa3.evaluate_final_combi()
-            if not np.array_equal(np.asarray(e2[0]), np.asarray(e3[0])) or e2[1] != e3[1]:
+            r2, r3 = np.asarray(e2[0], dtype=float), np.asarray(e3[0], dtype=float)
+            if r2.shape != r3.shape or float(np.max(np.abs(r2 - r3))) > 1e-13 * max(1.0, float(np.max(np.abs(r2)))) or e2[1] != e3[1]:
                 fails.append(fail("restored_reevaluation_differs", "stop at %d: saved %r restored %r" % (k, e2, e3), key))
             # the re-evaluation above must not disturb anything: restore once more and continue that copy
             sa2.save_to_file(path)
